@@ -287,11 +287,88 @@ static void body_sampled(Tape &t, Ctx &c) {
 	if (c.want_sample) c.sample = fmt("{\"stream_bytes\":%zu,\"data_bytes\":%zu,\"source\":\"%s\",\"crc_flag\":%d,\"cpu\":\"%s\"}", base.size(), w.data.size(), w.src.c_str(), crc_flag, lv);
 }
 
+// ---------------------------------------------------------------- one checksum update of more than 2^28 bytes
+// (the library splits Adler-32 updates at MAX_ADLER_BUF = 2^28).  Input = one sparse 1 MiB tile mapped repeatedly (memfd), compressed in ONE
+// isal_deflate_stateless call, then expanded in ONE isal_inflate_stateless call into a lazily backed mapping.
+#include <sys/mman.h>
+#include <sys/syscall.h>
+#include <unistd.h>
+static void body_huge_update(Tape &t, Ctx &c) {
+	int wrap = t.coin() ? IGZIP_ZLIB : IGZIP_GZIP;
+	int level = (int) t.range(0, 1);
+	const size_t TILE = 1u << 20, NT = 258;
+	size_t len = (1u << 28) + (size_t) t.pick<uint32_t>({1, 123 + (1u << 20), 4096, 65535});
+	c.fpmix(wrap); c.fpmix(level); c.fpmix(len);
+	int fd = (int) syscall(SYS_memfd_create, "verif-c11", 0);
+	if (fd < 0 || ftruncate(fd, TILE)) throw Skip("memfd_create unavailable");
+	std::vector<uint8_t> tile(TILE, 0);
+	for (size_t i = 0; i < TILE; i += 997) tile[i] = (uint8_t) (1 + mix64(i) % 255); // sparse: compresses to a few hundred KiB
+	tile[0] = 0x11; tile[TILE - 1] = 0x22;
+	if (pwrite(fd, tile.data(), TILE, 0) != (ssize_t) TILE) { close(fd); throw Skip("memfd write failed"); }
+	uint8_t *in = (uint8_t *) mmap(0, TILE * NT, PROT_NONE, MAP_PRIVATE | MAP_ANONYMOUS | MAP_NORESERVE, -1, 0);
+	if (in == MAP_FAILED) { close(fd); throw Skip("cannot reserve address space"); }
+	for (size_t i = 0; i < NT; i++) mmap(in + i * TILE, TILE, PROT_READ, MAP_SHARED | MAP_FIXED, fd, 0);
+	close(fd);
+	// the part beyond 2^28 must not repeat the beginning (a restart from the wrong offset would go unnoticed): private pages with other content
+	{
+		uint8_t *tail = (uint8_t *) mmap(in + 256 * TILE, 2 * TILE, PROT_READ | PROT_WRITE, MAP_PRIVATE | MAP_ANONYMOUS | MAP_FIXED, -1, 0);
+		if (tail == MAP_FAILED) { munmap(in, TILE * NT); throw Skip("cannot map tail"); }
+		for (size_t i = 0; i < 2 * TILE; i += 61) tail[i] = (uint8_t) (1 + mix64(i + 5) % 255);
+		mprotect(tail, 2 * TILE, PROT_READ);
+	}
+	size_t ocap = 64u << 20;
+	uint8_t *out = (uint8_t *) mmap(0, ocap, PROT_READ | PROT_WRITE, MAP_PRIVATE | MAP_ANONYMOUS | MAP_NORESERVE, -1, 0);
+	uint8_t *dec = (uint8_t *) mmap(0, len + 4096, PROT_READ | PROT_WRITE, MAP_PRIVATE | MAP_ANONYMOUS | MAP_NORESERVE, -1, 0);
+	auto cleanup = [&] { munmap(in, TILE * NT); if (out != MAP_FAILED) munmap(out, ocap); if (dec != MAP_FAILED) munmap(dec, len + 4096); };
+	if (out == MAP_FAILED || dec == MAP_FAILED) { cleanup(); throw Skip("cannot map buffers"); }
+	// references (zlib, in pieces below 2^31)
+	uLong ad = adler32(0L, Z_NULL, 0), cr = crc32(0L, Z_NULL, 0);
+	for (size_t p = 0; p < len; p += 1u << 30) { uInt n = (uInt) std::min<size_t>(1u << 30, len - p); ad = adler32(ad, in + p, n); cr = crc32(cr, in + p, n); }
+	static struct isal_zstream s;
+	static uint8_t lbuf[ISAL_DEF_LVL1_DEFAULT];
+	isal_deflate_stateless_init(&s);
+	s.level = level; s.level_buf = lbuf; s.level_buf_size = sizeof lbuf; s.gzip_flag = wrap;
+	s.next_in = in; s.avail_in = (uint32_t) len; s.next_out = out; s.avail_out = (uint32_t) ocap; s.end_of_stream = 1;
+	int rc = -99;
+	guard::Fault f = guard::call([&] { rc = isal_deflate_stateless(&s); });
+	std::string where = fmt("%zu bytes (2^28 + %zu) in one call, level %d, %s", len, len - (1u << 28), level, wrap == IGZIP_ZLIB ? "zlib" : "gzip");
+	std::string err;
+	if (f.faulted) err = "isal_deflate_stateless: " + f.describe();
+	else if (rc != COMP_OK) err = fmt("isal_deflate_stateless returned %d", rc);
+	size_t clen = s.total_out;
+	if (err.empty()) {
+		const uint8_t *tp = out + clen - (wrap == IGZIP_ZLIB ? 4 : 8);
+		if (wrap == IGZIP_ZLIB) { uint32_t a = (uint32_t) tp[0] << 24 | tp[1] << 16 | tp[2] << 8 | tp[3]; if (a != (uint32_t) ad) err = fmt("producer: zlib trailer Adler-32 %08x, Adler-32 of the input is %08lx", a, ad); }
+		else { uint32_t cc = tp[0] | tp[1] << 8 | tp[2] << 16 | (uint32_t) tp[3] << 24, l = tp[4] | tp[5] << 8 | tp[6] << 16 | (uint32_t) tp[7] << 24; if (cc != (uint32_t) cr || l != (uint32_t) len) err = fmt("producer: gzip trailer %08x/%u, expected %08lx/%u", cc, l, cr, (uint32_t) len); }
+	}
+	if (err.empty()) {
+		static struct inflate_state st;
+		isal_inflate_init(&st);
+		st.crc_flag = wrap == IGZIP_ZLIB ? ISAL_ZLIB : ISAL_GZIP;
+		st.next_in = out; st.avail_in = (uint32_t) clen; st.next_out = dec; st.avail_out = (uint32_t) (len + 4096);
+		int ir = -99;
+		f = guard::call([&] { ir = isal_inflate_stateless(&st); });
+		if (f.faulted) err = "isal_inflate_stateless: " + f.describe();
+		else if (ir != ISAL_DECOMP_OK || st.total_out != len) err = fmt("verifier: isal_inflate_stateless returned %d after %u of %zu bytes on a stream whose trailer is correct", ir, st.total_out, len);
+		else if (st.crc != (uint32_t) (wrap == IGZIP_ZLIB ? ad : cr)) err = fmt("verifier: state.crc %08x, expected %08lx", st.crc, wrap == IGZIP_ZLIB ? ad : cr);
+		else if (memcmp(dec, in, len)) err = "decoded bytes differ from the input";
+	}
+	cleanup();
+	PBT_CHECK(err.empty(), "checksum:huge-update", "%s: %s", where.c_str(), err.c_str());
+	c.nontrivial = true;
+	c.label(wrap == IGZIP_ZLIB ? "zlib" : "gzip");
+	if (c.want_sample) c.sample = fmt("{\"bytes\":%zu,\"wrapper\":\"%s\",\"level\":%d,\"compressed\":%zu}", len, wrap == IGZIP_ZLIB ? "zlib" : "gzip", level, clen);
+}
+static void sweep_huge_update(SweepSink &s) {
+	s.emit({1, 0, 1}) && s.emit({0, 1, 0});
+}
+
 int main(int argc, char **argv) {
 	refcrc::self_test();
 	std::vector<Sub> subs = {
 		{"producer", body_producer, 40, 3, nullptr, "gzip/zlib(+NO_HDR) streams from one-shot and streaming compression with generated chunkings: trailer == zlib crc32/adler32 of the input and length mod 2^32; non-trivial: non-empty input"},
 		{"verifier_exhaustive", body_exhaustive, 64, 2, nullptr, "small wrapped stream (ISA-L-, zlib- or grammar-made, <= 300 bytes) x crc_flag {GZIP, ZLIB, *_NO_HDR_VER} x chunking {one call, 1-byte chunks, two chunks} x decode kernel: every single-bit flip, every truncation, a byte substitution at every offset; if ISA-L reports success the trailer actually present must match the CRC/Adler and length of the bytes actually delivered (positions from the reference decoder) and state.crc must equal it; non-trivial: a corruption that changes the delivered bytes or hits the trailer"},
+		{"huge_update", body_huge_update, 4, 0, sweep_huge_update, "2^28 + {1, 4096, 65535, 1 MiB + 123} bytes compressed in one isal_deflate_stateless call and expanded in one isal_inflate_stateless call (zlib and gzip): trailer == zlib's adler32/crc32 of the input, verifier accepts, state.crc equal, bytes equal"},
 		{"verifier_sampled", body_sampled, 64, 3, nullptr, "streams up to 6000 bytes: call boundary on every trailer byte (valid and corrupted trailer), 60 sampled flips/substitutions/truncations with generated chunkings"},
 	};
 	return pbt_main(argc, argv, "C11", subs);
